@@ -821,13 +821,14 @@ theorem exitData_idle (st : St) (srcIp : Bytes) (cid : Nat) (dest : Dest) (paylo
 /-! ### level 3: ANY `on_data` dispatch program that passes `safeOnData` -/
 
 /-- facts known on the current path: `nn` the destination is not ("0.0.0.0", 0); `no` the cell is NOT taken as a cell of
-    a circuit this node originated; `nd` the payload is not itself a DATA cell.  `exitData` needs `nn` and `no`;
-    `deliverOwn` (re-dispatch through on_packet_from_circuit) needs `nd`, which is what makes it a local delivery. -/
-def safeOnData (nn no nd : Bool) : Prog → Bool
+    a circuit this node originated; `xm` the payload's message type is registered to arrive through an exit.
+    `exitData` needs `nn` and `no`; `deliverOwn` (re-dispatch through on_packet_from_circuit, with the sender-chosen origin
+    as source address) needs `xm`. -/
+def safeOnData (nn no xm : Bool) : Prog → Bool
   | .done => true
-  | .act a k => (a != .exitData || (nn && no)) && (a != .deliverOwn || nd) && safeOnData nn no nd k
+  | .act a k => (a != .exitData || (nn && no)) && (a != .deliverOwn || xm) && safeOnData nn no xm k
   | .ite c t e =>
-    safeOnData nn no nd t && safeOnData (nn || c == .destIsNull) (no || c == .ownCircuit) (nd || c == .nestedData) e
+    safeOnData nn no (xm || c == .exitMessage) t && safeOnData (nn || c == .destIsNull) (no || c == .ownCircuit) xm e
 
 theorem on_data_prog_safe' : safeOnData false false false Gen.on_data_prog = true := by decide
 
@@ -943,7 +944,7 @@ theorem interpOnData_inv (e : DEnv) (base : List (Nat × Bytes)) (Q : List Ev) (
     simp only [interpOnData]
     by_cases hc : condOnData e st c = true
     · simp only [hc, if_true]
-      exact interpOnData_inv e base Q sp hev t st nn no nd hnn hs.1 hinv
+      exact interpOnData_inv e base Q sp hev t st nn no _ hnn hs.1 hinv
     · have hc' : condOnData e st c = false := by simpa using hc
       simp only [hc', Bool.false_eq_true, if_false]
       refine interpOnData_inv e base Q sp hev el st _ _ _ ?_ hs.2 hinv
@@ -990,7 +991,7 @@ theorem interpOnData_why (e : DEnv) (st0 : St) : ∀ (p : Prog) (st : St) (nn no
     simp only [interpOnData]
     by_cases hcc : condOnData e st c = true
     · simp only [hcc, if_true]
-      exact interpOnData_why e st0 t st nn no nd hc hnn hno hs.1
+      exact interpOnData_why e st0 t st nn no _ hc hnn hno hs.1
     · have hc' : condOnData e st c = false := by simpa using hcc
       simp only [hc', Bool.false_eq_true, if_false]
       refine interpOnData_why e st0 el st _ _ _ hc ?_ ?_ hs.2
@@ -1043,6 +1044,74 @@ theorem viaSock_why (st : St) (cid : Nat) (ev : Ev) : ∀ s' ∈ (viaSock st cid
     · subst hs'
       obtain ⟨i1, i2⟩ := sockStep_ids st.flags st.pfx s ev
       exact ⟨s, (find_cid hf).1, i1.symm, i2.symm, by rw [← sockStep_enabled st.flags st.pfx s ev]; exact h⟩
+
+theorem exitData_sockout (st : St) (srcIp : Bytes) (cid : Nat) (dest : Dest) (payload : Bytes) :
+    ∀ o ∈ (exitData st srcIp cid dest payload).2, ∃ s', SockOut st.flags st.pfx s' o := by
+  unfold exitData
+  cases hf : st.socks.find? (fun s => s.cid == cid) with
+  | none => simp only [interpExit_none]; simp
+  | some x =>
+    obtain ⟨x', hx', sp⟩ := interpExit_some ⟨st.flags, st.pfx, srcIp, payload, dest⟩ Gen.exit_data_prog x false false
+      (by simp) (by simp) exit_data_prog_safe'
+    simp only [hx']
+    exact fun o ho => ⟨x', sp.outs o ho⟩
+
+/-- soundness of the `xm` component of `safeOnData`: a `loc _ 0` output (hand-over to on_packet_from_circuit) only
+    appears when the payload's message id is an exit message id -/
+theorem interpOnData_redispatch (e : DEnv) (st0 : St) : ∀ (p : Prog) (st : St) (nn no xm : Bool), st.exitIds = st0.exitIds →
+    (xm = true → condOnData e st0 .exitMessage = true) → safeOnData nn no xm p = true →
+    ∀ c', Out.loc c' 0 ∈ (interpOnData e p st).2 → condOnData e st0 .exitMessage = true
+  | .done, _, _, _, _, _, _, _ => by intro c' h; simp [interpOnData] at h
+  | .act a k, st, nn, no, xm, hx, hxm, hs => by
+    simp only [safeOnData, Bool.and_eq_true] at hs
+    intro c' h
+    simp only [interpOnData, List.mem_append] at h
+    rcases h with h | h
+    · cases a with
+      | deliverOwn =>
+        have : xm = true := by simpa using hs.1.2
+        exact hxm this
+      | exitData =>
+        obtain ⟨s', hso⟩ := exitData_sockout st e.srcIp e.cid e.dest e.payload _ h
+        rcases hso with (⟨_, _, _, he, _⟩ | ⟨_, _, _, he, _⟩) | ⟨_, _, he, _⟩ <;> cases he
+      | deliverOther => simp [actOnData] at h
+      | deliverRaw => simp [actOnData] at h
+      | queueAppend => simp [actOnData] at h
+      | transportSend => simp [actOnData] at h
+      | startResolve => simp [actOnData] at h
+      | tunnelData => simp [actOnData] at h
+      | enable => simp [actOnData] at h
+      | sendto => simp [actOnData] at h
+    · refine interpOnData_redispatch e st0 k (actOnData e st a).1 nn no xm ?_ hxm hs.2 c' h
+      by_cases ha : a = .exitData
+      · subst ha; simp only [actOnData]; unfold exitData; simp only; split <;> exact hx
+      · rw [(actOnData_loc e st a ha).1]; exact hx
+  | .ite c t el, st, nn, no, xm, hx, hxm, hs => by
+    simp only [safeOnData, Bool.and_eq_true] at hs
+    intro c' h
+    simp only [interpOnData] at h
+    by_cases hcc : condOnData e st c = true
+    · simp only [hcc, if_true] at h
+      refine interpOnData_redispatch e st0 t st nn no _ hx ?_ hs.1 c' h
+      intro hh
+      rcases (Bool.or_eq_true _ _).mp hh with hh | hh
+      · exact hxm hh
+      · have : c = .exitMessage := by simpa using hh
+        subst this
+        simpa [condOnData, hx] using hcc
+    · have hc' : condOnData e st c = false := by simpa using hcc
+      simp only [hc', Bool.false_eq_true, if_false] at h
+      exact interpOnData_redispatch e st0 el st _ _ xm hx hxm hs.2 c' h
+
+theorem redispatch_guard (st : St) (ip : Bytes) (sp c : Nat) (d : Dest) (p : Bytes) (c' : Nat)
+    (h : Out.loc c' 0 ∈ (step st (.data ip sp c d p)).2) :
+    ∃ b, p[22]? = some b ∧ st.exitIds.contains b.toNat = true := by
+  have := interpOnData_redispatch ⟨ip, sp, c, d, p⟩ st Gen.on_data_prog st false false false rfl (by simp)
+    on_data_prog_safe' c' h
+  simp only [condOnData] at this
+  cases hb : p[22]? with
+  | none => simp [hb] at this
+  | some b => exact ⟨b, rfl, by simpa [hb] using this⟩
 
 /-! ### one step of the community, and histories -/
 
